@@ -75,6 +75,15 @@ RULE = ("(ra) RaggedArray / ndarray inputs with 1..300 rows (row counts around t
         "each rank's stripe against the caller's order, and against the model's loaders at that (rank, size). "
         "(lac-sounded-distinct) 3..5 files of >= 2 types with pairwise different strided lengths, no lengths= hint, "
         "processes 1, 2, 3 and 4. "
+        "(resave, round 3s) file histories: one or two arrays (more rows / a row count of another decimal width / a ragged "
+        "array before a single array and vice versa / the same row count; same or other tag and element type) are saved to "
+        "a path, then the case's array is saved to the SAME path and every ra check (node names, full / strided / subset "
+        "load, striped load, model file) runs on that file. "
+        "(lac2, round 3s) load histories, oracle-only: 2..3 bulk loads in one process (load_as_concatenated with 1..3 "
+        "workers, with / without lengths hint, concatenate_trjs) of small trajectory files cut from frame0.h5 -- other files "
+        "of equal total length, the same files with another atom selection of equal size, or other files of unequal total "
+        "(control) -- every returned array is KEPT and compared (digest taken at return and again after the last load) with "
+        "its own expected concatenation. "
         "non-trivial := (ra/raw) >= 2 rows of different lengths or a stride > 1 or a proper key subset; "
         "(lac/npy) >= 2 files of different strided length")
 TRUSTED = ["translator/tr_store.py (expressions, slices and loop bodies of ra.save / ra.load / util.load / mpi.io -> "
@@ -416,6 +425,82 @@ def _ord_case(rng, layout, equal):
 _ORD_LAYOUTS = ["unpadded", "dirs-rev", "dup-names", "shuffled"]
 
 
+def _resave_case(rng, shape, j=None):
+    """round 3s, file history: one or two arrays are saved to a path, then the case's array is saved to the SAME path;
+    everything an "ra" case checks (node names, full / strided / subset load, striped load, the model's file) is then
+    checked on that file.  shape: fewer = fewer rows than before; width = the row count has another number of decimal
+    digits; nd-after-ra / ra-after-nd = a single array over a ragged one and vice versa; same = same row count"""
+    def rows_for(prev_n):
+        if shape == "fewer":
+            return rng.randint(2, max(2, prev_n - 1))
+        if shape == "width":
+            return rng.choice([k for k in (2, 3, 9, 10, 11, 12, 99, 100, 101) if len(str(k)) != len(str(prev_n))])
+        return prev_n
+    prev_n = rng.choice([3, 5, 9, 10, 11, 12, 13, 30] if shape != "width" else [4, 9, 10, 12, 100, 101])
+    if shape == "ra-after-nd":
+        prev = [_nd_case(rng)]
+        c = _ra_case(rng, rng.randint(2, 12), False)
+    elif shape == "nd-after-ra":
+        prev = [_ra_case(rng, prev_n, False)]
+        c = _nd_case(rng)
+    else:
+        prev = [_ra_case(rng, prev_n, False)]
+        if (rng.random() < 0.3) if j is None else (j % 3 == 0):          # a longer history: fewer -> more -> the final one
+            prev.insert(0, _ra_case(rng, rng.randint(2, 6), False))
+        c = _ra_case(rng, rows_for(prev_n), False)
+    m = rng.random() if j is None else (0.2, 0.6, 0.9)[j % 3]
+    for q in prev:
+        # mostly the same tag / element type as the final array (stale nodes then look like rows of it)
+        if m < 0.7:
+            q["tag"] = c["tag"]
+        elif q["tag"] == c["tag"]:
+            q["tag"] = "other"
+        if m < 0.5 and q["dtype"] != c["dtype"]:
+            q["dtype"], q["tail"] = c["dtype"], c["tail"]
+            q["rows"] = [_gen_elems(rng, q["dtype"], q["tail"], len(x), False) for x in q["rows"]]
+    c["prev"] = [{k: q[k] for k in ("form", "dtype", "tail", "rows", "comp", "tag")} for q in prev]
+    c["resave"] = shape
+    return c
+
+
+_RESAVE_SHAPES = ["fewer", "fewer", "width", "width", "nd-after-ra", "ra-after-nd", "same"]
+
+
+def _lac2_case(rng, j=None):
+    """round 3s, load history: 2..3 bulk loads in one process, every result is KEPT and compared with its own expected
+    concatenation after the last load.  Small trajectory files are cut from frame0.h5; file sets / atom selections are
+    chosen so that successive results have the same overall shape (equal total frames, equal atom count) in most cases"""
+    variants = ["other-files", "other-files", "other-selection", "other-files-unequal-total"]
+    variant = rng.choice(variants) if j is None else variants[j % 4]
+    natoms = rng.choice([1, 2, 3, 6] if variant == "other-selection" else [None, 1, 2, 3, 6])
+    nsteps = rng.choice([2, 2, 2, 3]) if j is None else (3 if j % 3 == 0 else 2)
+    total = rng.randint(3, 14)
+    files, steps = [], []
+
+    def split(t):
+        parts = []
+        while t > 0:
+            p = rng.randint(1, t) if len(parts) < 2 else t
+            parts.append(p)
+            t -= p
+        return parts
+    base = None
+    for k in range(nsteps):
+        if variant == "other-selection" and base is not None:
+            idx = base
+        else:
+            t = total if variant != "other-files-unequal-total" or k == 0 else total + rng.randint(1, 3)
+            idx = []
+            for n in split(t):
+                files.append(n)
+                idx.append(len(files) - 1)
+            base = idx
+        sel = None if natoms is None else sorted(rng.sample(range(22), natoms))
+        steps.append({"entry": rng.choice(["lac", "lac", "lac", "ctrjs"]), "files": idx, "sel": sel,
+                      "procs": rng.choice([1, 2, 3]), "hint": rng.random() < 0.3})
+    return {"kind": "lac2", "variant": variant, "lens": files, "steps": steps}
+
+
 def generate(rng, tier):
     cases = []
     quick = tier == "quick"
@@ -461,6 +546,12 @@ def generate(rng, tier):
     # sounded parallel loads of files with pairwise different lengths, processes 1..4
     for _ in range(14 if quick else 60):
         cases.append(_lac_distinct_case(rng))
+    # round 3s: file histories (several saves to one path) and load histories (several bulk loads, results kept)
+    for shape in _RESAVE_SHAPES:
+        for j in range(3 if quick else 20):
+            cases.append(_resave_case(rng, shape, j))
+    for j in range(24 if quick else 150):
+        cases.append(_lac2_case(rng, j))
     # rows longer than 2^20 / 2^21 entries
     cases.append(_longrow_case(rng, "quick", tail=[]))
     cases.append(_longrow_case(rng, "quick", tail=[2]))
@@ -719,6 +810,44 @@ def _run_lachist(c, d):
     return out
 
 
+def _run_lac2(c, d):
+    import mdtraj as md
+    from enspara.util.load import load_as_concatenated, concatenate_trjs
+    src = md.load(os.path.join(DATA, "frame0.h5"))
+    fns, off = [], 0
+    for i, n in enumerate(c["lens"]):
+        fns.append(os.path.join(d, "h%d.h5" % i))
+        src[off:off + n].save_hdf5(fns[-1])
+        off += n + 3
+    kept, out = [], {"steps": []}
+    for st in c["steps"]:
+        fs = [fns[i] for i in st["files"]]
+        kw = {} if st["sel"] is None else {"atom_indices": np.array(st["sel"])}
+        indiv = [md.load(f, **kw).xyz for f in fs]
+        exp = np.concatenate(indiv)
+        rec = {"expected": _digest(exp), "lengths_expected": [len(x) for x in indiv]}
+        try:
+            if st["entry"] == "lac":
+                lengths, xyz = load_as_concatenated(fs, processes=st["procs"],
+                                                    lengths=[len(x) for x in indiv] if st["hint"] else None, **kw)
+                rec["lengths"] = [int(v) for v in lengths]
+            else:
+                trj = concatenate_trjs([md.load(f, **kw) for f in fs], n_procs=st["procs"])
+                xyz = trj.xyz
+            rec["at_return"] = _digest(xyz)      # a plain string, taken now
+            kept.append(xyz)                     # the caller keeps the result itself
+        except Exception as ex:
+            rec.update(_err(ex))
+            kept.append(None)
+        out["steps"].append(rec)
+    for rec, xyz in zip(out["steps"], kept):
+        if xyz is not None:
+            rec["at_end"] = _digest(xyz)
+    out["aliased"] = [[i, j] for i in range(len(kept)) for j in range(i + 1, len(kept))
+                      if kept[i] is not None and kept[j] is not None and bool(np.shares_memory(kept[i], kept[j]))]
+    return out
+
+
 # ----------------------------------------------------------------------------- implementation
 def _err(ex):
     return {"err": type(ex).__name__}
@@ -752,6 +881,17 @@ def _run_ra(c, d):
         flat = [e for r in rows for e in r]
         arr = ra.RaggedArray(array=_from_bits(flat, dt, [len(flat)] + tail), lengths=[len(r) for r in rows])
     path = os.path.join(d, "a.h5")
+    for q in c.get("prev", []):          # file history: earlier saves to the same path
+        if q["form"] == "nd":
+            parr = _from_bits(q["rows"][0], q["dtype"], [len(q["rows"][0])] + q["tail"])
+        else:
+            pflat = [e for r in q["rows"] for e in r]
+            parr = ra.RaggedArray(array=_from_bits(pflat, q["dtype"], [len(pflat)] + q["tail"]),
+                                  lengths=[len(r) for r in q["rows"]])
+        try:
+            ra.save(path, parr, compression_level=q["comp"], tag=q["tag"])
+        except Exception as ex:
+            return {"err": "UnexpectedPrevSave" + type(ex).__name__}
     try:
         ra.save(path, arr, compression_level=c["comp"], tag=c["tag"])
     except Exception as ex:
@@ -887,6 +1027,8 @@ def run_impl(c):
             return _run_ord(c, d)
         if c["kind"] == "lachist":
             return _run_lachist(c, d)
+        if c["kind"] == "lac2":
+            return _run_lac2(c, d)
         return _run_npy(c, d)
     finally:
         shutil.rmtree(d, ignore_errors=True)
@@ -992,6 +1134,18 @@ def oracle(c, r):
         return [("harness", str(r))]
     if c["kind"] in ("long", "lachist", "longrow", "ord"):
         return _oracle_extra(c, r)
+    if c["kind"] == "lac2":
+        return _oracle_lac2(c, r)
+    if c["kind"] == "ra" and c.get("prev"):
+        hist = "; ".join("%s %s%s %s, tag %r" % ("ndarray of" if q["form"] == "nd" else "RaggedArray of %d rows," % len(q["rows"]),
+                                                 q["dtype"], q["tail"] or "", [len(x) for x in q["rows"]][:14], q["tag"]) for q in c["prev"])
+        now = "%s %s%s rows %s, tag %r" % (c["form"], c["dtype"], c["tail"] or "", [len(x) for x in c["rows"]][:14], c["tag"])
+        return [(k, "file history: saved to the same path before: [%s]; then saved %s: %s" % (hist, now, msg))
+                for k, msg in _oracle_main(c, r)]
+    return _oracle_main(c, r)
+
+
+def _oracle_main(c, r):
     out = []
     if c["kind"] == "ra":
         rows, s = c["rows"], c["stride"]
@@ -1061,6 +1215,30 @@ def oracle(c, r):
                 out.append(("concat-lengths", "processes=%s lengths %s expected %s" % (p, run["lengths"], exp_len)))
             if run["digest"] != r["expected"] or run["dtype"] != "float32":
                 out.append(("concat", "processes=%s: xyz differs from the concatenation of the individual loads" % p))
+    return out
+
+
+def _oracle_lac2(c, r):
+    out = []
+    if "err" in r:
+        return [("lac-history", "writing the files raised %s" % r)]
+    for k, (st, rec) in enumerate(zip(c["steps"], r["steps"])):
+        name = "load_as_concatenated" if st["entry"] == "lac" else "concatenate_trjs"
+        where = "load %d of %d in one process: %s(files of %s frames, atoms %s, processes=%d)" % (
+            k + 1, len(c["steps"]), name, [c["lens"][i] for i in st["files"]], st["sel"], st["procs"])
+        if "err" in rec:
+            out.append(("concat", "%s raised %s" % (where, rec["err"])))
+            continue
+        if "lengths" in rec and rec["lengths"] != rec["lengths_expected"]:
+            out.append(("concat-lengths", "%s: lengths %s expected %s" % (where, rec["lengths"], rec["lengths_expected"])))
+        if rec["at_return"] != rec["expected"]:
+            out.append(("concat", "%s: the result is not the concatenation of the individual loads" % where))
+        elif rec.get("at_end") != rec["expected"]:
+            later = [j + 1 for i, j in r["aliased"] if i == k]
+            out.append(("concat-kept-result", "%s: correct when returned, but after the later load(s) the SAME array no longer "
+                        "holds this concatenation%s; all steps: %s" % (
+                            where, " (it shares memory with the result of load %s)" % later if later else "",
+                            [(s_["entry"], [c["lens"][i] for i in s_["files"]], s_["sel"]) for s_ in c["steps"]])))
     return out
 
 
@@ -1185,7 +1363,7 @@ def _ord_term(c, r):
 
 
 def coq_show(c):
-    if c["kind"] in ("long", "lachist", "longrow"):
+    if c["kind"] in ("long", "lachist", "longrow", "lac2"):
         return "tt"
     if c["kind"] == "ord":
         return "map (fun P => map (fun r => load_npy_as_striped r P %s %s) (seq 0 P)) %s" % (
@@ -1204,7 +1382,7 @@ def coq_show(c):
 
 
 def coq_check(c, r):
-    if c["kind"] in ("long", "lachist", "longrow"):
+    if c["kind"] in ("long", "lachist", "longrow", "lac2"):
         return None        # oracle-only cases (sizes / file histories outside the Coq model's evaluation)
     if "err" in r and str(r["err"]).startswith("Unexpected"):
         return None
@@ -1251,6 +1429,8 @@ def coq_check(c, r):
 
 # ----------------------------------------------------------------------------- evidence
 def nontrivial(c, r):
+    if c["kind"] == "lac2":
+        return "steps" in r and all("at_end" in x for x in r["steps"])
     if c["kind"] in ("long", "lachist", "longrow"):
         return True
     if c["kind"] == "ord":
@@ -1293,9 +1473,32 @@ def tags(c, r):
             if any("err" not in x and len(x["lengths"]) and len(c["files"][rank::int(P)]) == 1
                    for P, pr in r["h5"].items() for rank, x in enumerate(pr)):
                 t.append("ord-h5-rank-owns-one-row")
+    elif c["kind"] == "lac2":
+        if "steps" in r and all("at_end" in x for x in r["steps"]):
+            t.append("lac2-" + c["variant"])
+            shapes = [(sum(c["lens"][i] for i in st["files"]), None if st["sel"] is None else len(st["sel"])) for st in c["steps"]]
+            if any(shapes[i] == shapes[j] for i in range(len(shapes)) for j in range(i + 1, len(shapes))):
+                t.append("lac2-equal-overall-shape")
+            if any(shapes[i] == shapes[i + 1] and c["steps"][i]["files"] != c["steps"][i + 1]["files"] for i in range(len(shapes) - 1)):
+                t.append("lac2-equal-shape-other-files")
+            if len(c["steps"]) >= 3:
+                t.append("lac2-three-loads")
+            if any(st["entry"] == "ctrjs" for st in c["steps"]):
+                t.append("lac2-concatenate-trjs")
+            if len({st["procs"] for st in c["steps"]}) >= 2:
+                t.append("lac2-worker-counts-differ")
     elif c["kind"] == "ra":
         n = len(c["rows"])
         t.append("form-" + c["form"])
+        if c.get("prev") and "names" in r:
+            t.append("resave")
+            t.append("resave-" + c["resave"])
+            if len(c["prev"]) >= 2:
+                t.append("resave-three-saves")
+            if any(q["tag"] != c["tag"] for q in c["prev"]):
+                t.append("resave-other-tag")
+            if any(q["dtype"] != c["dtype"] for q in c["prev"]):
+                t.append("resave-other-dtype")
         if c["form"] == "ra":
             t.append("rows-1" if n == 1 else "rows-2..9" if n < 10 else "rows-10..99" if n < 100 else "rows>=100")
         if c["stride"] > 1:
@@ -1350,7 +1553,13 @@ ESSENTIAL_TAGS = ["form-ra", "form-nd", "rows-10..99", "rows>=100", "stride>1", 
                   "longrow-striped-world-2", "ord-unpadded", "ord-dirs-rev", "ord-dup-names", "ord-shuffled",
                   "ord-equal-lengths", "ord-unequal-lengths", "ord-world-1", "ord-world-2", "ord-world-3", "ord-world-4",
                   "ord-h5-rank-owns-one-row", "ord-trajectories", "keys-permuted", "keys-permuted-equal-lengths", "keys-reversed",
-                  "lac-sounded-distinct-lengths", "lac-processes-3"]
+                  "lac-sounded-distinct-lengths", "lac-processes-3",
+                  # round 3s
+                  "resave", "resave-fewer", "resave-width", "resave-nd-after-ra", "resave-ra-after-nd", "resave-same",
+                  "resave-three-saves", "resave-other-tag", "resave-other-dtype",
+                  "lac2", "lac2-other-files", "lac2-other-selection", "lac2-other-files-unequal-total",
+                  "lac2-equal-overall-shape", "lac2-equal-shape-other-files", "lac2-three-loads", "lac2-concatenate-trjs",
+                  "lac2-worker-counts-differ"]
 
 
 def search(rng, tier):
@@ -1369,7 +1578,8 @@ def search(rng, tier):
                     return found
     for c in ([_ra_case(rng, n, True, perm=pm, equal=eq) for n in (2, 3, 11) for pm in ("rev", "perm") for eq in (False, True)] +
               [_ord_case(rng, lay, eq) for lay in _ORD_LAYOUTS for eq in (False, True)] +
-              [_longrow_case(rng, "quick") for _ in range(2)] + [_lac_distinct_case(rng) for _ in range(10)]):
+              [_longrow_case(rng, "quick") for _ in range(2)] + [_lac_distinct_case(rng) for _ in range(10)] +
+              [_resave_case(rng, sh) for sh in _RESAVE_SHAPES] + [_lac2_case(rng) for _ in range(10)]):
         r = run_impl(c)
         for key, msg in oracle(c, r):
             found.append((key, msg, c, r))
